@@ -59,3 +59,98 @@ Theorem agree_refuted_stale_event_old :
   (∃ e, i_alloc (watch_deliver true s5 174325762).1 !! 174325762 = Some e ∧ e_key e = L "sts_ns1_a_a-0"%string).
 Proof. exact agree_refuted_stale_event. Qed.
 Print Assumptions agree_refuted_stale_event_old.
+
+(** * C05 at the scheduler-plugin level: the process dies between two API calls, then restarts
+
+    "If the process dies between any two API calls, a restart followed by resync leaves no leaked IP, no doubly
+    owned IP, and every existing pod keeps the IP it was bound with."
+
+    Model: Model/PluginCrash.v (read its header).  galaxy-ipam writes the store before its memory and memory does
+    not survive the process, so a section that dies right before its k-th API call leaves, for the restarted
+    process, the state of the section whose k-th call failed cleanly - except inside Bind's multi-IP allocation,
+    where a failed creation rolls the created objects back and a dead process does not: [bind_crash].
+    [restart_world] is the restarted process (Init = decode + ConfigurePool over the store; informers list afresh,
+    the event queue is empty).  [WInv] is the world invariant of Proofs/PluginInv.v; [keeps_live]: the
+    configuration the process restarts with still contains the IPs of the live pods.  Proofs: Proofs/PluginCrashP.v. *)
+From Galaxy.Model Require Import Plugin PluginCrash.
+From Galaxy.Proofs Require Import PluginInv PluginPolicyP PluginWitness PluginCrashP.
+
+(** a process death inside Bind's multi-IP allocation, then a restart: the world invariant holds again.
+    [is_Some (decode_pools conf)]: the restarted process gets a configuration it can decode - otherwise Init fails
+    and there is no restarted process (the model's [ORestart] then leaves the state as it is, see
+    [crash_in_bind_needs_decodable_conf] below). *)
+Theorem crash_in_bind_restart_safe : ∀ w ns name uid node k wc conf,
+  WInv w → uid ≠ [] → bind_crash w ns name uid node k = Some wc → keeps_live w conf → is_Some (decode_pools conf) →
+  WInv (restart_world wc conf).
+Proof. intros w ns name uid node k wc conf HW _ Hc Hkl Hd. by apply (crash_in_bind_restart_safe_l w ns name uid node k). Qed.
+Print Assumptions crash_in_bind_restart_safe.
+
+(** a process death at any other call of any section = that call failing cleanly, then a restart *)
+Theorem crash_elsewhere_restart_safe : ∀ w o conf, WInv w → wf_op w o → keeps_live (pstep w o).1 conf →
+  WInv (restart_world (pstep w o).1 conf).
+Proof. exact crash_elsewhere_restart_safe_l. Qed.
+Print Assumptions crash_elsewhere_restart_safe.
+
+(** what the property promises, read off the invariant of the restarted world [w'] (of either theorem above):
+    no doubly owned IP - an IP is never free and allocated, and two live bound pods never share an IP *)
+Theorem after_restart_no_double_owner : ∀ w', WInv w' →
+  (∀ x, x ∈ i_unalloc (w_ipam w') → i_alloc (w_ipam w') !! x = None) ∧
+  (∀ k1 k2 p q x, w_pods w' !! k1 = Some p → w_pods w' !! k2 = Some q → k1 ≠ k2 → live_bound p → live_bound q →
+                  x ∈ pd_ips p → x ∉ pd_ips q).
+Proof. exact after_restart_no_double_owner_l. Qed.
+Print Assumptions after_restart_no_double_owner.
+
+(** every existing live bound pod keeps the IPs it was bound with: each is allocated under the pod's key for the
+    pod's UID, and no IP of that key is stored for another incarnation ([owned]); the pods are those of the world
+    before the crash: [w_pods (restart_world w conf) = w_pods w] *)
+Theorem after_restart_pods_keep_ips : ∀ w' k p, WInv w' → w_pods w' !! k = Some p → live_bound p → owned (w_ipam w') p.
+Proof. intros w' k p HW. exact (wi_owned _ HW k p). Qed.
+Print Assumptions after_restart_pods_keep_ips.
+
+Theorem restart_world_fresh_informer : ∀ w conf,
+  w_lister (restart_world w conf) = w_pods (restart_world w conf) ∧ w_queue (restart_world w conf) = [] ∧
+  w_pods (restart_world w conf) = w_pods w.
+Proof. intros w conf. split_and!; reflexivity. Qed.
+
+(** no leaked IP: after one resync pass of the restarted process over (at least) all allocated IPs, every entry
+    under a pod key that the pass does not skip and whose pod no longer exists (or has finished, or is another
+    incarnation) is one that the release policy keeps for the pod (C03's [resync_pass_no_orphans], instantiated with
+    the restarted world, whose informer cache equals the API server's pods) *)
+Theorem after_restart_resync_no_leak : ∀ w conf items w',
+  WInv (restart_world w conf) →
+  (∀ x, is_Some (i_alloc (w_ipam (restart_world w conf)) !! x) → x ∈ items) →
+  resync_pass (restart_world w conf) items w' →
+  ∀ x e q, i_alloc (w_ipam w') !! x = Some e → wf_pod q → e_key e = pod_key q → e_policy e ≤ 2 →
+           resync_skip e (keyobj_of q) = false → pod_gone w' q (e_uid e) →
+           policy_verdict w' (keyobj_of q) (e_policy e) = KeepForPod.
+Proof. exact after_restart_resync_no_leak_l. Qed.
+Print Assumptions after_restart_resync_no_leak.
+
+(** non-vacuity: a reachable world (well-formed history [h_crash]: one pool, a statefulset pod requesting the two
+    ranges [10.100.0.2] and [10.100.0.5], informer synced, both free); Bind dies after the first of its two
+    creations: the store has exactly one object more (10.100.0.2, keyed by the pod, stored for its UID) while the
+    tables of the dead process still list that IP as free; the restarted process has it allocated under the
+    pod's key, 10.100.0.5 is not allocated, and the invariant holds *)
+Example crash_nonvacuous :
+  wf_hist (world0 false nodes1) h_crash ∧
+  ∃ wc, bind_crash w_crash (L "ns1") (L "web-0") (L "uA") (L "node1") 1 = Some wc ∧
+    size (i_store (w_ipam wc)) = S (size (i_store (w_ipam w_crash))) ∧
+    i_store (w_ipam w_crash) !! ip2 = None ∧ i_store (w_ipam wc) !! ip5 = None ∧
+    (∃ o, i_store (w_ipam wc) !! ip2 = Some o ∧ e_key o = L "sts_ns1_web_web-0" ∧ e_uid o = L "uA") ∧
+    i_alloc (w_ipam wc) = i_alloc (w_ipam w_crash) ∧ i_unalloc (w_ipam wc) = i_unalloc (w_ipam w_crash) ∧
+    bool_decide (ip2 ∈ i_unalloc (w_ipam wc)) = true ∧
+    keeps_live w_crash conf1 ∧
+    (∃ e, i_alloc (w_ipam (restart_world wc conf1)) !! ip2 = Some e ∧ e_key e = L "sts_ns1_web_web-0" ∧ e_uid e = L "uA") ∧
+    bool_decide (ip2 ∈ i_unalloc (w_ipam (restart_world wc conf1))) = false ∧
+    i_alloc (w_ipam (restart_world wc conf1)) !! ip5 = None ∧
+    WInv (restart_world wc conf1).
+Proof. exact crash_example. Qed.
+Print Assumptions crash_nonvacuous.
+
+(** the premise [is_Some (decode_pools conf)] of [crash_in_bind_restart_safe] cannot be dropped: with an undecodable
+    configuration the model's restart leaves the dead process's memory next to the store it wrote *)
+Theorem crash_in_bind_needs_decodable_conf :
+  ∃ wc, bind_crash w_crash (L "ns1") (L "web-0") (L "uA") (L "node1") 1 = Some wc ∧
+        keeps_live w_crash [JNull] ∧ decode_pools [JNull] = None ∧ ¬ WInv (restart_world wc [JNull]).
+Proof. exact crash_needs_decodable_conf. Qed.
+Print Assumptions crash_in_bind_needs_decodable_conf.
